@@ -208,6 +208,9 @@ def calcMolindex (hyd : Nat → Bool) (n : Nat) (items : List Bond) : Option ((N
 
 /-! ### Specification -/
 
+/-- the factor of the property's statement: bonded = closer than 1.2 times the sum of the covalent radii -/
+def statementFactor : Rat := 6 / 5
+
 /-- the library's bonding rule as the property states it: closer than `factor` times the sum of the covalent
     radii; never between different non-zero PARTs; hydrogens only within the same PART -/
 def ruleAllowed (h1 h2 : Bool) (p1 p2 : Int) : Prop :=
